@@ -235,6 +235,16 @@ PROPS = {
         "technique": "exhaustive configuration-matrix enumeration + property-based testing (rapid) of hosts/replies, table oracle from the documentation, in-process proxy/TLS peers",
         "legs": [leg("^TestC18Cells$", 1, 1, qshards=8, tshards=16), leg("^TestC18Rand$", 300, 6000, qshards=8)],
     },
+    "C16": {
+        "title": "Handshakes clean up on every failure path and leave no deadline on success",
+        "level": "fault_enumeration",
+        "rule": "paths {direct ws, direct wss (library TLS), via HTTP CONNECT proxy, via HTTPS proxy (TLS to the proxy), via SOCKS5 - each optionally with a wss backend through the tunnel} and Upgrade (with/without HandshakeTimeout, with bytes pre-buffered in the hijacked reader so the wrapper path is taken, failing Hijack), HandshakeTimeout / context deadline from a generated set incl. none. Peers are in-process goroutines behind an instrumented pipe (CONNECT proxy, SOCKS5, TLS with an in-process CA, WebSocket backend). part handshake-faults: a fault-free run numbers the operations N of the first-hop connection (Read, Write, SetDeadline, SetReadDeadline, SetWriteDeadline, Close); then EVERY index k <= N+1 x fault kind {error, timeout, EOF} is injected (k beyond the run's own N counted as trivial); also negative replies (403 to the upgrade, proxy refusal, wrong certificate). Oracle: on any failure Dial/Upgrade returns (nil, err) and the first-hop connection's Close was called (Upgrade: after a successful hijack); on success the connection is open and replaying the logged deadline calls leaves read and write deadlines cleared; with a limit configured every Read/Write outside library-made TLS ran with a deadline armed no later than the limit. part stall-fake-clock (testing/synctest, go1.26.8): the peer goes silent at a generated stage {accept, proxy reply, SOCKS reply, backend TLS, ws reply}; Dial must return an error no later than the limit on the fake clock (exact) on every path incl. TLS handshakes, with the connection closed. Non-trivial = a fault that fired at operation k; every stall case.",
+        "assumptions": TRUST + ["fault kinds are error / timeout / EOF at operation granularity of the first-hop net.Conn; TLS record internals are not faulted separately"],
+        "level_text": "Every transport operation of each handshake path is failed in turn with every fault kind (exhaustive per path and setting); settings are sampled. Bounded-wait clause decided on a fake clock.",
+        "level_note": "Which operation failed and whether Close was called is taken from the instrumented pipe's own log.",
+        "technique": "fault-injection enumeration (every first-hop operation x every fault kind) + fake-clock (testing/synctest) stall scenarios generated by rapid",
+        "legs": [leg("^TestC16$", 60, 800, qshards=8), raceleg("^TestC16Stall$", 150, 2500)],
+    },
 }
 
 NOT_APPLICABLE = [
